@@ -1,9 +1,10 @@
 #!/bin/bash
 # tools/seedrun.sh <patch.diff> <PROP> [PROP...]: run the registered quick checks for PROPs against a scratch copy of /repo with the patch applied
-[ "$MREPO_LOCKED" = 1 ] || { export MREPO_LOCKED=1; exec flock /tmp/mrepo.lock "$0" "$@"; }
+M=${MREPO:-/tmp/mrepo}; B=${MBUILD:-/tmp/vt/build}; V=$(cd "$(dirname "$0")/.." && pwd)
+[ "$MREPO_LOCKED" = 1 ] || { export MREPO_LOCKED=1; exec flock $M.lock "$0" "$@"; }
 PATCH=$1; shift
-rm -rf /tmp/mrepo; rsync -a --exclude target --exclude .git /repo/ /tmp/mrepo/
-(cd /tmp/mrepo && git apply --unsafe-paths --directory=/tmp/mrepo $PATCH 2>/dev/null || patch -p1 -s < $PATCH) || { echo "PATCH FAILED"; exit 3; }
+rm -rf $M; rsync -a --exclude target --exclude .git /repo/ $M/
+(cd $M && git apply --unsafe-paths --directory=$M $PATCH 2>/dev/null || patch -p1 -s < $PATCH) || { echo "PATCH FAILED"; exit 3; }
 for P in "$@"; do
-  cd /verif && VERIF_REPO=/tmp/mrepo VERIF_BUILD=/tmp/vt/build ./check $P --no-evidence 2>&1 | grep -E "^VIOLATION|^  obligation|^KNOWN|^UNDECIDED|^C[0-9]+:" | cut -c1-260
+  cd $V && VERIF_REPO=$M VERIF_BUILD=$B ./check $P --no-evidence 2>&1 | grep -E "^VIOLATION|^  obligation|^KNOWN|^UNDECIDED|^C[0-9]+:" | cut -c1-260
 done
